@@ -15,7 +15,7 @@ from fractions import Fraction as F
 warnings.filterwarnings('ignore')
 import numpy as np
 
-from common import f2b, b2f, frac_of, cont_match, ts, ts_in, ZONES, secs, run_driver_json, Tally, rng_for, scale_of, hv
+from common import f2b, b2f, frac_of, cont_match, ts, ts_in, entry_ts, ZONES, secs, run_driver_json, Tally, rng_for, scale_of, hv
 
 from qstrader import settings
 settings.set_print_events(False)
@@ -208,7 +208,7 @@ def gen_pcm_case(rng):
         prices[nan_asset] = None
     return dict(kind='pcm', long_only=lo, param=(rng.choice([0.0, 0.05, 0.3]) if lo else rng.choice([0.5, 1.0, 2.0])),
                 fee=gen_fee(rng), prices=prices, fills=fills, universe=uni, alpha=alpha, t=MON_OPEN + rng.choice([0, 60, 3600]),
-                entry_tz=(rng.choice(ZONES) if rng.random() < 0.3 else None))
+                entry_tz=(rng.choice(ZONES) if rng.random() < 0.3 else None), nat=rng.random() < 0.4)
 
 
 def gen_dyn_case(rng):
@@ -224,7 +224,7 @@ def gen_dyn_case(rng):
         e = rng.choice([x for a, x in dates if x is not None] or [t])
         more.append(rng.choice([e, e - 1, e + 1, t + rng.choice([-3600, 3600, 23 * 3600]), (t // 86400) * 86400 + rng.randrange(0, 86400),
                                 t - 86400, t + 86400]))
-    return dict(kind='dyn', dates=dates, t=t, more=more, entry_tz=(rng.choice(ZONES) if rng.random() < 0.35 else None))
+    return dict(kind='dyn', dates=dates, t=t, more=more, entry_tz=(rng.choice(ZONES) if rng.random() < 0.35 else None), nat=rng.random() < 0.4)
 
 
 def gen_eqw_case(rng):
@@ -278,7 +278,7 @@ def run_pcm(case):
     b.update(ts(MON_OPEN))
     held = [[a, int(v['quantity'])] for a, v in b.get_portfolio_as_dict('1').items()]
     if 'dynamic' in case['universe']:
-        uni = DynamicUniverse(collections.OrderedDict((a, None if e is None else ts_in(e, case.get('entry_tz'))) for a, e in case['universe']['dynamic']))
+        uni = DynamicUniverse(collections.OrderedDict((a, entry_ts(e, case.get('entry_tz'), case.get('nat'))) for a, e in case['universe']['dynamic']))
     else:
         uni = StaticUniverse(list(case['universe']['static']))
     if 'single' in case['alpha']:
@@ -330,7 +330,7 @@ def run_pcm(case):
 
 
 def run_dyn(case):
-    uni = DynamicUniverse(collections.OrderedDict((a, None if e is None else ts_in(e, case.get('entry_tz'))) for a, e in case['dates']))
+    uni = DynamicUniverse(collections.OrderedDict((a, entry_ts(e, case.get('entry_tz'), case.get('nat'))) for a, e in case['dates']))
     got = list(uni.get_assets(ts(case['t'])))
     stat = list(StaticUniverse([a for a, e in case['dates']]).get_assets(ts(case['t'])))
     am = SingleSignalAlphaModel(uni, signal=0.75)
